@@ -434,6 +434,22 @@ T("C09", "twin-ps-gauge-before-copy", _MPSF, "        if mps.to_right:\n        
   "        mps = mps.canonicalise() if False else mps\n        if mps.to_right:\n            mps.ensure_right_canonical()\n        else:\n            mps.ensure_left_canonical()\n\n        # construct the environment matrix\n        # almost half is not used. Not a big deal.\n        environ = Environ(mps, mpo)\n\n        # statistics for debug output\n        local_steps = []\n        # sweep for 2 rounds\n        for i in range(2):\n            for imps in mps.iter_idx_list(full=True):",
   "dead conditional expression in front of the gauge preparation")
 
+# ------------------------------------------------------------------------------------------------ wave 9
+T("C07", "twin-real-shortcut-all-inputs", _MPSF, "        if np.allclose(results.imag, 0):\n            return results.real",
+  "        all_real = not self.is_complex and not self_conj.is_complex and not any(mpo.is_complex for mpo in mpos)\n        if all_real or np.allclose(results.imag, 0):\n            return results.real",
+  "realness shortcut that looks at ket, bra and every operator")
+M("C07", "real-cast-unguarded-single", _MPSF, "        if np.isclose(float(val.imag), 0):\n            return float(val.real)\n        else:\n            return complex(val)\n        # This is time",
+  "        if not self.is_complex:\n            return float(val.real)\n        else:\n            return complex(val)\n        # This is time", ["real-cast-guard"],
+  "single expectation returns the real part whenever the ket is real")
+M("C08", "omega-identity-of-other-model", "renormalizer/mps/gs.py", "identity = Mpo.identity(mpo.model)", "identity = Mpo.identity(mps.model)", ["shift-operator"],
+  "identity built on the state's model (differs after on-the-fly swaps / for a sub-model operator)")
+M("C08", "omega-shift-sign", "renormalizer/mps/gs.py", "mpo = mpo.add(identity.scale(-omega))", "mpo = mpo.add(identity.scale(omega))", ["shift-operator"], "H + omega instead of H - omega")
+T("C08", "twin-omega-sub", "renormalizer/mps/gs.py", "mpo = mpo.add(identity.scale(-omega))", "mpo = mpo.add(identity.scale(omega).scale(-1))", "shift written as two scalings")
+M("C06", "canonicalise-switch-always", "renormalizer/mps/mp.py", "        if (not self.to_right and idx == 1) or (self.to_right and idx == self.site_num - 2):\n            self._switch_direction()", "        self._switch_direction()", ["sweep-centre"],
+  "direction switched after partial sweeps too")
+M("C02", "graph-cover-le", "renormalizer/mps/symbolic_mpo.py", "    if non_red.shape[0] < non_red.shape[1]:\n        for i in range(non_red.shape[0]):", "    if non_red.shape[0] <= non_red.shape[1]:\n        for i in range(non_red.shape[0]):", ["terminal-cover"],
+  "square tables covered from the row side: a 1 x 1 root table keeps its coefficient in the discarded vector")
+
 _FIX_EXPECT = {1: ("C03", ["qn-align"]), 2: ("C03", ["qn-charge"]), 3: ("C10", ["evolve"]), 4: ("C13", ["effect-bound", "TTNS.evolve"]), 5: ("C13", ["compressed_sum"]),
                6: ("C15", ["array-truth"]), 7: ("C16", ["sho-product"]), 8: ("C16", ["copy-forward"]), 9: ("C14", ["crash-points"]), 10: ("C09", ["krylov-hermitian"]),
                11: ("C08", ["heff-network"]), 12: ("C09", ["adaptive-reject"]), 13: ("C17", ["jw-vocabulary"]), 14: ("C10", ["imag-reentry"]), 15: ("C10", ["thermal-hamiltonian"]), 16: ("C09", ["entry-gauge"])}
